@@ -88,8 +88,10 @@ def run(ctx, only=None):
                 # list items that begin with a blank line (a bare marker), inside containers: the blocks under them have their own line origin
                 '> -\n>   under a bare marker\n> - second\n', '- outer\n\n  *\n    inner\n', '> 1.\n>    # heading\n>\n>    text\n', '> para\n>\n> -\n>   ```\n>   code\n>   ```\n',
                 '1. one\n2.\n   two\n\n   - \n     deep\n', '> > -\n> >   x\n',
+                # empty list items followed by a blank line, in the middle of a list and at its end: whether a list is loose is its own business
+                '- c\n-\n\nend\n', '- c\n-\n\n- d\n', '1.\n\n2. x\n', '- a\n-\n\n- b\n-\n\nend\n',
                 '# #\n', '## ##\n\nbody\n', '### ###\n', '#\n', '# # #\n', '## \n\nbody\n', '# ##\n']
-    tricky_a = ['<!-- note -->\n\npara\n', '<pre>\nx\n</pre>\n\npara\n', '<?php x ?>\n\npara\n', '<!DOCTYPE x>\n\n# h\n', '```py\nc\n```\n\npara\n', '# h ##\n\npara\n', 'para\n', '# h\n', 'h\n===\n', '***\n', '> quote\n', '> ```\n> x\n', '> - a\n', '| a |\n| - |\n| b |\n', '> <div>\n', 'a\n\n> b\nlazy\n', '- x\n\npara\n',
+    tricky_a = ['- a\n-\n\n- b\n\nclosing words\n', '- a\n- b\n-\n\nclosing words\n', '<!-- note -->\n\npara\n', '<pre>\nx\n</pre>\n\npara\n', '<?php x ?>\n\npara\n', '<!DOCTYPE x>\n\n# h\n', '```py\nc\n```\n\npara\n', '# h ##\n\npara\n', 'para\n', '# h\n', 'h\n===\n', '***\n', '> quote\n', '> ```\n> x\n', '> - a\n', '| a |\n| - |\n| b |\n', '> <div>\n', 'a\n\n> b\nlazy\n', '- x\n\npara\n',
                 '```\nc\n```\npara\n', '    code\n\npara\n', '<div>\nx\n</div>\n\npara\n', '> | a |\n> | - |\n', '> a\n> ===\n',
                 '# Title\n\nIntro paragraph.\n', '## Sub title ##\n', '~~~info\nx\n~~~\n\n# Title #\n']
     pairs = [(a, b) for a in tricky_a for b in tricky_b]
